@@ -408,6 +408,15 @@ apply(const mc_op *op)
             }
             M.attached = op->a[0] ? 'w' : 'r';
             M.cursor   = 0;
+            {
+                /* block size and count are settings of the attachment, not of the stored Vdata: the application of the
+                   block modes sets them again whenever it attaches for writing (no effect once linked blocks exist) */
+                int bm = M.blk >= 3 ? M.blk - 2 : M.blk;
+                if (op->a[0] && bm && (VSsetblocksize(vs, bm == 1 ? recsize() : 7) == FAIL || VSsetnumblocks(vs, bm) == FAIL)) {
+                    mc_violation("setblocksize:failed", "VSsetblocksize/VSsetnumblocks after VSattach(\"w\") failed");
+                    return 1;
+                }
+            }
             break;
         }
         case O_REOPEN:
@@ -607,8 +616,13 @@ terminal(void)
 static int
 setup(int sch, int blk, int ndds)
 {
+    /* blk 3 / 4: block modes 1 / 2 with the start state "already in linked blocks": two records, another Vdata behind them,
+       two more records appended (the search then starts with block tables in place) */
+    int linked_start = blk >= 3;
     memset(&M, 0, sizeof M);
     M.sch = sch, M.blk = blk, M.ndds = ndds;
+    if (linked_start)
+        blk -= 2;
     build_subsets(SCH[sch].nf);
     vfs_remove_file(PATH);
     fid = Hopen(PATH, DFACC_CREATE, (int16)ndds);
@@ -628,6 +642,13 @@ setup(int sch, int blk, int ndds)
     M.vsref  = VSQueryref(vs);
     M.cursor = 0;
     M.nops   = 0;
+    if (linked_start) {
+        static const mc_op PRO[5] = {{O_WRITE, {2, FULL_INTERLACE}}, {O_DETACH, {0}}, {O_OTHER, {0}}, {O_ATTACH, {1}}, {O_APPEND, {2, FULL_INTERLACE}}};
+        for (int i = 0; i < 5; i++)
+            if (apply(&PRO[i]))
+                return -1;
+        M.nops = 0;
+    }
     return 0;
 }
 
@@ -827,8 +848,10 @@ C07_main(const char *tier, const char *replay)
         mc_round_begin(label);
         int ncfg = 0;
         for (int sch = 0; sch < NSCH; sch++)
-            for (int blk = 0; blk < 3; blk++) {
+            for (int blk = 0; blk < 5; blk++) {
                 if (!thorough && blk == 2 && sch % 2)
+                    continue;
+                if (!thorough && blk == 3 && sch % 3)
                     continue;
                 cfg_t *c = &cfgs[ncfg++];
                 c->sch = sch, c->blk = blk, c->ndds = (sch + blk) % 2 ? 4 : 16;
